@@ -89,11 +89,21 @@ class RectPartition(object):
 
         self.__cell_boundary_vecs = tuple(bdry_vecs)
 
-        # Initialize nodes_on_bdry
-        left_on_bdry = np.isclose(self.grid.min_pt, self.set.min_pt)[:, None]
-        right_on_bdry = np.isclose(self.grid.max_pt, self.set.max_pt)[:, None]
-        on_bdry = np.hstack([left_on_bdry, right_on_bdry]).tolist()
-        self.__nodes_on_bdry = tuple(tuple(r) for r in on_bdry)
+        # Initialize nodes_on_bdry. The tolerance is relative to the size of
+        # the outermost cells, not to the magnitude of the coordinates
+        # (otherwise nodes half a cell away from a boundary far from the
+        # origin would be reported as lying on it).
+        on_bdry = []
+        for vec, xmin, xmax in zip(self.grid.coord_vectors,
+                                   self.set.min_pt, self.set.max_pt):
+            if len(vec) > 1:
+                tol_l = 1e-5 * (vec[1] - vec[0])
+                tol_r = 1e-5 * (vec[-1] - vec[-2])
+            else:
+                tol_l = tol_r = 1e-5 * (xmax - xmin)
+            on_bdry.append((bool(abs(vec[0] - xmin) <= tol_l),
+                            bool(abs(xmax - vec[-1]) <= tol_r)))
+        self.__nodes_on_bdry = tuple(on_bdry)
 
     @property
     def cell_boundary_vecs(self):
